@@ -62,7 +62,13 @@ REG = {
         "suites": [("cost", (500, 15000))],
         "rule": "random type shapes (depth 1-4: arrays of sub-byte and byte-aligned elements, structures, unions, delimited types) instantiated at two scales with capacities/extents "
                 "congruent modulo 64: a few hundred, and 2**40..2**63; the property's query script (min/max/extent/fixed_length, byte alignment of the type and every field offset, ==, hash) "
-                "is run on both with enumeration counters installed from the harness; non-trivial = accepted shape of depth >= 1; distinct = distinct pair",
+                "is run on both with enumeration counters installed from the harness; one case in five renders the shape as a NAMESPACE of DSDL files "
+                "(one file per composite, 1-3 minor versions of a type under one major version - fields renamed, a void turned into a field and back, constants, "
+                "fields added / dropped under one extent -, v0.x and other-major versions with other layouts, a service in two minor versions referring to the types, "
+                "@assert / @print directives that do not mention _offset_ / _bit_length_) which is read twice with read_namespace and queried type by type at four "
+                "capacity scales (hundreds / tens of thousands with 16-bit prefixes, then 2**32.. / ..2**63 with 64-bit prefixes; within each pair the enumeration "
+                "counters and the number of Python-level calls must coincide up to noise, and no expansion may happen); "
+                "non-trivial = accepted shape of depth >= 1; distinct = distinct pair",
         "technique": "Lean 4 bound on a cost model of the symbolic solver (independent of repetition counts) + measured enumeration counters of the real library compared with the model and across capacity scales",
         "level_text": "Cost is modelled as the number of integers passing through itertools.product / combinations_with_replacement and leaf iteration during residue queries. Proved in Lean 4 for all operator trees and "
                       "divisors: the cost is bounded by a function that never inspects repetition counts or leaf values, residue sets handed to enumeration never exceed the divisor, and for types of the same shape "
@@ -77,7 +83,11 @@ REG = {
         "suites": [("values", (2500, 60000))],
         "rule": "pairs of objects of one class built independently from equal or mutated descriptions: bit length set expressions, types (primitives, voids, arrays, sealed / delimited "
                 "structures and unions, incl. same-named composites with different contents nested in arrays), fields / padding / constants, expression values (rationals written "
-                "differently, booleans, NFC / NFD strings, sets); every public list accessor of both objects is mutated and re-queried, both objects are pickled and compared; "
+                "differently, booleans, NFC / NFD strings, sets); every public list accessor of both objects is mutated and re-queried, both objects are pickled and compared, "
+                "looked up in sets / dicts / lists keyed by the other; histories: every object on the way (element, field type, inner type, request / response section) may be hashed, "
+                "compared, kept in a set / dict, pickled, copied, queried or wrapped into other objects BEFORE it is handed to the next public constructor (arrays, Field / PaddingField / "
+                "Constant, StructureType, UnionType, DelimitedType, ServiceType), the result is compared member by member with a twin built without history; pairs of DIFFERENT kinds with "
+                "one full name and version (service / structure / union / delimited, X vs array of X, padding vs nameless void field, rational vs boolean vs string vs set), both directions; "
                 "non-trivial = objects built successfully; distinct = distinct pair",
         "technique": "Lean 4 theorems over the equality / hash keys of the model objects + differential correspondence and contract oracle on independently built object pairs",
         "level_text": "Proved in Lean 4 for all values of the key model (Model/Values.lean): BitLengthSet / type / attribute / expression-value equality is reflexive and symmetric, equal objects have equal "
